@@ -603,12 +603,12 @@ class Scen(CompScenario):
 class Prop(PropBase):
     ID = "C28"
     tiers = {
-        "quick": {"runs": 400, "selftest_runs": 4},
+        "quick": {"runs": 300, "selftest_runs": 4},
         "thorough": {"runs": 12000, "selftest_runs": 32},
     }
     rule = ("one run = one generated pipeline (source, 1-4 middle nodes from {function stage, stalling stage, called "
             "method, prefetched no_dependency method, middle external, exit + re-entry bridged by a transaction or by "
-            "adapters}, fifo(depth)/Pipe placement, allow_unused/allow_empty, external clear hook) driven for 100-300 "
+            "adapters}, fifo(depth)/Pipe placement, allow_unused/allow_empty, external clear hook) driven for 90-300 "
             "cycles by a seeded phase plan (random / sink back-pressure / one stage stalled / flush / full speed / "
             "drain); distinct = distinct (pipeline, items in flight, set of observable nodes executed, clear); "
             "non-trivial = something executed or clear ran while items were in flight")
@@ -732,7 +732,7 @@ class Prop(PropBase):
         cfg["allow_empty"] = bool(empty or rng.random() < 0.25)
         cap = capacity(full_nodes(cfg))
         cfg["drain"] = 2 * cap + 2 * len(nodes) + 10
-        cycles = rng.randint(100, 300)
+        cycles = rng.randint(100, 300) if tier == "thorough" else rng.randint(90, 220)
         cfg["cycles"] = cycles
         cfg["sched"] = rng.choice(["eager", "eager", "rr"])
         pr = [0.3, 0.5, 0.7, 0.9, 1.0]
